@@ -20,7 +20,7 @@ RULE = (
 ASSUMPTIONS = ["approximate frontends (SolverVSA, SolverHybrid) are judged by the probe pairs only, not against the reference"]
 
 CLASSES = ["Solver", "SolverCacheless", "SolverComposite", "SolverReplacement", "SolverHybrid", "SolverVSA", "SolverConcrete", "SolverStrings"]
-EXACT = {"Solver", "SolverCacheless", "SolverComposite", "SolverStrings"}
+EXACT = {"Solver", "SolverCacheless", "SolverComposite", "SolverStrings", "SolverReplacement", "SolverHybrid"}
 
 
 def floors(tier):
